@@ -124,3 +124,30 @@ def fkey(f: FuncInfo, construct) -> str:
 
 def where(f: FuncInfo, n=None) -> str:
     return f.loc(n)
+
+
+class Iteration:
+    """A `for` loop or one generator clause of a comprehension / generator expression, seen uniformly."""
+
+    def __init__(self, node, it, target, body, conditions, is_comp):
+        self.node, self.iter, self.target, self.body, self.conditions, self.is_comp = node, it, target, body, conditions, is_comp
+
+    def calls(self):
+        return [c for b in self.body for c in (calls_in(b) if not isinstance(b, ast.Call) else [b] + [x for a in ast.iter_child_nodes(b) for x in calls_in(a)])]
+
+
+def iterations(root):
+    """every iteration construct below root (not descending into nested defs): for loops and comprehension clauses"""
+    from .program import walk_local as _wl
+
+    out = []
+    for n in _wl(root):
+        if isinstance(n, ast.For):
+            out.append(Iteration(n, n.iter, n.target, list(n.body), [], False))
+        elif isinstance(n, (ast.ListComp, ast.SetComp, ast.GeneratorExp)):
+            for g in n.generators:
+                out.append(Iteration(n, g.iter, g.target, [n.elt], list(g.ifs), True))
+        elif isinstance(n, ast.DictComp):
+            for g in n.generators:
+                out.append(Iteration(n, g.iter, g.target, [n.key, n.value], list(g.ifs), True))
+    return out
